@@ -1407,6 +1407,9 @@ Section WithCfg.
     set_drain_end i p ;;;
     ret (Some e).
 
+  Definition drain_hint_at (i : nat) : M Z :=
+    d <- drain_of i ;; d' <- drain_of i ;; ptr_diff (d_end d) (d_pos d').
+
   Definition into_next_at (i : nat) : M (option elem) :=
     t <- into_of i ;;
     d <- is_default (i_vec t) ;;
